@@ -202,6 +202,29 @@ def _is_in_lambda_body(node):
     return False
 
 
+def _is_in_annotation_scope(name):
+    """
+    PEP 695: the bases of a generic class and the annotations of a generic
+    function are evaluated in the scope of its type parameters, not in the
+    scope that contains the definition.
+    """
+    child = name
+    node = name.parent
+    in_annotation = False
+    while node is not None and node.type not in ('funcdef', 'classdef', 'lambdef', 'file_input'):
+        if node.type == 'tfpdef' and child is not node.children[0]:
+            in_annotation = True
+        child, node = node, node.parent
+    if node is None or node.type not in ('funcdef', 'classdef') \
+            or not any(c.type == 'type_params' for c in node.children):
+        return False
+    if node.type == 'classdef':
+        return child.type != 'suite' and child is not node.children[1]
+    if child.type == 'parameters':
+        return in_annotation
+    return child.get_previous_sibling() == '->'
+
+
 def _is_in_nested_scope(node):
     """
     Lambda bodies and comprehensions (other than their first iterable) are
@@ -739,7 +762,9 @@ class _NameChecks(SyntaxRule):
     message_none = 'cannot assign to None'
 
     def is_issue(self, leaf):
-        if self._normalizer.version < (3, 12) or leaf.search_ancestor('type_params') is None:
+        if self._normalizer.version < (3, 12) or (
+                leaf.search_ancestor('type_params') is None
+                and not _is_in_annotation_scope(leaf)):
             # Type parameters (and their bounds) live in a scope of their own.
             self._normalizer.context.add_name(leaf)
 
